@@ -23,6 +23,9 @@ pub enum Sel {
     Query(String),
 }
 
+/// fault kind `Z`: the answer is the normal one, but it comes after this many milliseconds
+pub static SLOW_MS: std::sync::atomic::AtomicU64 = std::sync::atomic::AtomicU64::new(3000);
+
 #[derive(Default)]
 pub struct FakeState {
     pub table: HashMap<String, Vec<u8>>,
@@ -53,6 +56,11 @@ impl FakeState {
         if matches!(fault, Some((_, 'X'))) {
             self.bad = true;
         }
+        if matches!(fault, Some((_, 'Z'))) {
+            // slow, not faulty (the lock is held while sleeping: one evaluation at a time anyway)
+            std::thread::sleep(std::time::Duration::from_millis(SLOW_MS.load(std::sync::atomic::Ordering::Relaxed)));
+        }
+        let fault = fault.filter(|(_, k)| *k != 'Z');
         if self.bad {
             let resp = b"%ERROR:201: access denied\n".to_vec();
             self.log.push((line.to_string(), resp.clone()));
